@@ -26,4 +26,4 @@ Deliverables, all inside {wt}/seed_out/ (create it):
   2. demo.py – a small standalone program (or pytest file demo_test.py) that exercises the library through its public API and exits non-zero / fails WITH your change and exits 0 / passes WITHOUT it (on the clean commit).  It must check the property itself (e.g. a round trip or a comparison with a value computed independently), not merely compare against a hard-coded output of the old code.
   3. meta.json – {{"property": "{p['id']}", "summary": "<one sentence: what the change does>", "needs": "<what is needed for the violation to manifest: which inputs / sequence / sites>", "files_changed": [...], "commands_run": ["..."], "tests_pass_with_change": true}}
 
-Verify everything yourself before finishing: (a) with the change applied the full test suite passes (204 passed); (b) demo fails with the change; (c) `git stash` / revert the change → demo passes; then re-apply the change so the worktree ends in the changed state, with seed_out/ present.  Do not commit.  In your final message report the summary, what it needs to manifest, and the exact commands you ran with their outcomes.""")
+Verify everything yourself before finishing: (a) with the change applied the full test suite passes (204 passed); (b) demo fails with the change; (c) revert the change with `git apply -R seed_out/patch.diff` (do NOT use `git stash`: the stash is shared between all worktrees of this repository and other agents are working in sibling worktrees) → demo passes; then re-apply it with `git apply seed_out/patch.diff` so the worktree ends in the changed state, with seed_out/ present.  Do not commit.  In your final message report the summary, what it needs to manifest, and the exact commands you ran with their outcomes.""")
